@@ -766,6 +766,7 @@ class _SetOperation(Selectable, Term):  # type:ignore[misc]
             or getattr(operand, "_orderbys", None)
             or getattr(operand, "_limit", None) is not None
             or getattr(operand, "_offset", None) is not None
+            or getattr(operand, "_for_update", False) is True  # (a locking clause ends the operand as well)
         )
 
     @classmethod
